@@ -97,7 +97,7 @@ func c21sepClass(s string) string {
 func TestC21(t *testing.T) {
 	rep := lib.NewReport("C21", "exploration")
 	defer rep.Finish(t)
-	rep.Rule = "for every pair g1<g2 of characters in '0'..'~' (+ one non-ASCII): values holding exactly the characters of ['0',g2) except g1 (for every other pair wrapped in multi-byte characters) (which drives the separator choice to (g1,g2) unless fixed strings interfere), placed in each parameter field in turn x sleep flag x 0..2 bundles/databases (+ a bundle without any optional parameter) x optional fields empty or not; FUSE and PG encoders; oracle: encoding fails, or the reference decoder (documented format + shell decoder constraints) returns exactly the non-empty parameters and the flag; distinct = distinct encoded strings"
+	rep.Rule = "for every pair g1<g2 of characters in '0'..'~' (+ one non-ASCII): values holding exactly the characters of ['0',g2) except g1 (for one pair in three wrapped in multi-byte characters, for another third in white space) (which drives the separator choice to (g1,g2) unless fixed strings interfere), placed in each parameter field in turn x sleep flag x 0..2 bundles/databases (+ a bundle without any optional parameter) x optional fields empty or not; FUSE and PG encoders; oracle: encoding fails, or the reference decoder (documented format + shell decoder constraints) returns exactly the non-empty parameters and the flag; distinct = distinct encoded strings"
 	var chars []rune
 	for c := '0'; c <= '~'; c++ {
 		chars = append(chars, c)
@@ -161,8 +161,11 @@ func TestC21(t *testing.T) {
 			if V == "" {
 				V = "~" // both separators at the very start of the range
 			}
-			if (i/step+j/step)%2 == 0 {
+			switch (i/step + j/step) % 3 {
+			case 0:
 				V = "é" + V + "結" // multi-byte characters around the driving value: they are outside the separator range
+			case 1:
+				V = " " + V + " \n" // white space at both ends (below the separator range): part of the value
 			}
 			rp := map[string]interface{}{"g1": string(g1), "g2": string(g2), "value": V}
 			// ---- FUSE
